@@ -1820,6 +1820,10 @@ func (a *algo) translate(key string) {
 		a.translateWrap(key)
 		return
 	}
+	if key == "Statement.previous" {
+		a.translatePrevious(key)
+		return
+	}
 	env := aenv{}
 	var params []string
 	if d.Recv != nil && len(d.Recv.List) == 1 {
@@ -1956,7 +1960,9 @@ var algoTargets = []string{".IsReservedWord", "File.isLocal", "File.isValidAlias
 	// the entry points, with the environment as a parameter (algo_effect.go)
 	"File.Render", "Statement.RenderWithFile", "Group.RenderWithFile", "File.Save",
 	// wrappers of the entry points (algo_wrap.go)
-	"Statement.Render", "Group.Render", "Statement.GoString", "Group.GoString", "File.GoString"}
+	"Statement.Render", "Group.Render", "Statement.GoString", "Group.GoString", "File.GoString",
+	// the pointer comparison of the case-block test (algo_prev.go)
+	"Statement.previous"}
 
 func translateAlgorithms(fns []fn, reservedVar, stdVar string) (lean string, summary string) {
 	a := &algo{fns: map[string]*ast.FuncDecl{}, reservedVar: reservedVar, stdVar: stdVar, mutates: map[string]bool{}, needsFuel: map[string]bool{}, needsLib: map[string]bool{}, needsRec: map[string]bool{},
